@@ -1,0 +1,43 @@
+//go:build verif
+
+package rsm
+
+// Verification hook for property C13 (payload decoding as done by the batched
+// apply path). Add-only; compiled only with -tags verif.
+
+import (
+	pb "github.com/lni/dragonboat/v4/raftpb"
+	sm "github.com/lni/dragonboat/v4/statemachine"
+)
+
+type verifC13SM struct {
+	IManagedStateMachine
+	seen [][]byte
+}
+
+// BatchedUpdate records what the user state machine would see: the Cmd of
+// every entry at the time the whole batch is handed over.
+func (s *verifC13SM) BatchedUpdate(ents []sm.Entry) ([]sm.Entry, error) {
+	for _, e := range ents {
+		s.seen = append(s.seen, append([]byte{}, e.Cmd...))
+	}
+	return ents, nil
+}
+
+type verifC13Node struct{ INode }
+
+func (verifC13Node) ApplyUpdate(pb.Entry, sm.Result, bool, bool, bool) {}
+func (verifC13Node) ReplicaID() uint64                                 { return 1 }
+func (verifC13Node) ShardID() uint64                                   { return 1 }
+
+// VerifC13HandleBatch runs the real StateMachine.handleBatch on input (indexes
+// 1..n) over a recording state machine and returns the payloads the state
+// machine was given.
+func VerifC13HandleBatch(input []pb.Entry) ([][]byte, error) {
+	rec := &verifC13SM{}
+	s := &StateMachine{sm: rec, node: verifC13Node{}, sessions: NewSessionManager()}
+	if err := s.handleBatch(input, make([]sm.Entry, 0, len(input))); err != nil {
+		return nil, err
+	}
+	return rec.seen, nil
+}
